@@ -42,7 +42,8 @@ CLAIMED['C05'] = dict(
          'tasks against generated parameters of all datatypes (64 bit integers, strings with lone surrogates as '
          'surrogateescape decoding gives them) and all omit_unchanged_within/update_unchanged settings. Judged (i) against a register model fed from the operations and (ii) by replaying the byte stream '
          'of every activated connection (one activated on the quiet node, 0..2 more from the start, optionally one '
-         'activating in the middle of the history) against the ground-truth cache history (order, no phantom state, '
+         'activating in the middle of the history; optionally application callbacks on the parameters which fail now '
+         'and then) against the ground-truth cache history (order, no phantom state, '
          'no state skipped, final = cache).',
     note='Trusted: simulation kernel, fake driver, register model (value/error effect per operation), cache history '
          'from parameter callbacks. With several tasks the final entry must match an operation that may have been last.',
@@ -68,7 +69,8 @@ CLAIMED['C04'] = dict(
          'parameters, check hooks, commands) and change/do request sequences from 1..3 concurrent wire clients with '
          'payloads from the boundary catalogue of the described datainfo (incl. NaN/Infinity), while limits are moved '
          '(by wire requests and, in part of the runs, by a driver-side thread through the write methods of the limit '
-         'parameters) and pollers run. '
+         'parameters) and pollers run; in part of the runs a struct parameter is brought into an error state (failing '
+         'reads, read requests) between partial changes of it. '
          'Every driver call in the recorded log must be attributable to exactly one request that an independent '
          'three-valued reference validator does not reject, with the canonical value, within the limits in force; '
          'every must-reject request gets an error of a fitting class and leaves cache and update stream untouched.',
@@ -101,7 +103,8 @@ CLAIMED['C12'] = dict(
     text='Seeded search in three worlds: (peer) generated descriptions and message sequences (update/error_update/'
          'reply/changed/error_read, unknown parameters, module shorthand, malformed messages, future timestamps) with '
          'callback (un)registration at node/module/parameter level incl. raising and one-shot callbacks, ordered against '
-         'the rx thread by sync markers; (e2e) real client <-> real node with recording drivers, '
+         'the rx thread by sync markers, optionally a restart of the peer with another description (module added, '
+         'accessible changed) which the client meets by reconnecting on its own; (e2e) real client <-> real node with recording drivers, '
          'setParameter/getParameter/execCommand over generated parameters of every datatype (incl. integers beyond '
          '2**53), two concurrent writers through one client; (proxy) the same through '
          'a real node of frappy.proxy modules, with a connection drop; in both while the drivers of the node publish '
@@ -160,7 +163,8 @@ CLAIMED['C19'] = dict(
          'of the runs the responder is started by the real Server.run: the TCP interfaces are bound on the '
          'simulated network first (ports held by another listener for a while or for ever, real bind retries of '
          'TCPServer), and every announced port must be one the node really accepts connections on and answers '
-         '*IDN? on.',
+         '*IDN? on - at the moment the datagram leaves, also while discovery requests keep arriving during the shutdown '
+         'of the node (log of when each listening port is open).',
     note='Trusted: simulated UDP socket, simulated socketserver base class, constant firmware version. The budgeting clause is a pure function of the '
          'strings; it is checked as a rider of the simulated runs.',
     design='6/C19')
@@ -199,7 +203,8 @@ CLAIMED['C15'] = dict(
     level='exploration',
     text='Seeded search over attachment graphs on 2..5 generated, instrumented modules (acyclic, cyclic, missing, wrongly '
          'typed, optional/empty, not configured), first-use phase per attachment (earlyInit, initModule, startModule, poll, '
-         'shutdown, never), shuffled declaration order, Pinata with dynamic modules, shared communicator through uri, '
+         'shutdown, never), shuffled declaration order, Pinata with dynamic modules (first, in the middle or last; a '
+         'configured module may be attached to a scanned one), shared communicator through uri, '
          'configured writes, failing early/late initialisation, slow or hanging first polls, shutdown during a read '
          '(shorter and longer than the grace time), optionally a restart (shutdown, then the same configuration '
          'started again in the same process, judged like the first generation) - '
@@ -219,7 +224,8 @@ CLAIMED['C10'] = dict(
          'poll of that module; start values, overridden limits/unit/visibility/readonly/group must show in cache and '
          'description and limits must be used by later range checks (wire probes); with 0..3 injected errors (unknown '
          'name, unknown parameter property, wrong type, missing mandatory property, required value missing, inverted '
-         'limits, bad module property) start-up must end with the error report naming every failing module and no '
+         'limits, bad module property, an optional parameter of a base class which the class of the module does not '
+         'implement) start-up must end with the error report naming every failing module and no '
          'configured value may have reached any driver. In a quarter of the runs the node is restarted on the same '
          'loaded configuration (as Server.run does after Server.restart) and the second generation is judged.',
     note='Trusted: simulation kernel, fake driver, generated classes. The clauses "start value = converted configured '
@@ -239,7 +245,8 @@ CLAIMED['C18'] = dict(
          'cached float value belongs to the cached index and a float write selects the closest allowed value; no value '
          'outside the limits in force reaches the driver and an inverted limits pair is refused; at most one controller '
          'is active, the output names exactly it, a take-over switches the previous one off, operations on one output '
-         'leave the other output alone.',
+         'leave the other output alone; two clients handing the control to two controllers at the same instant (slow '
+         'switching hook) leave exactly one of them in control.',
     note='Trusted: simulation kernel, generated classes with hardware registers. Operations of client and driver are '
          'issued one after the other (the invariants are quiescent-point invariants); the poll thread runs concurrently; '
          'the concurrent assignment is limited to index writes and to structs with combined access methods.',
@@ -248,7 +255,8 @@ CLAIMED['C18'] = dict(
 CLAIMED['C06'] = dict(
     level='exploration',
     text='Seeded search over nodes built from generated module classes (all datatypes, readonly/constant/export flags, '
-         'commands, unexported modules, constants of every datatype) and from the shipped hardware-free configurations '
+         'commands, unexported modules, constants of every datatype, the export of single parameters given in the '
+         'configuration) and from the shipped hardware-free configurations '
          '(demo, sim, cryo, test, sim_mlz_htf02, sim_mlz_cci3he1, ls370sim; their threads, sleeps and random numbers run '
          'behind the seams), probed by a describing client over the wire while poll threads and a second client run '
          'and the driver now and then assigns a reading the datatype refuses: '
